@@ -41,10 +41,13 @@ def run_rules(pid, repo):
     keys = []
     floor = []
     for r in ctx.rules:
-        if len(r.instances) < r.floor:
+        if len(r.instances) < r.floor and not r.findings:
             floor.append(r.id)
         for f in r.findings:
             keys.append(f['key'])
+    known = {k['key'] for k in report.load_known().get('known', []) if k['property'] == pid}
+    if any(k not in known for k in keys):
+        floor = []          # same policy as report.finish: a located violation takes precedence over an instance shortfall
     return {'error': None, 'keys': sorted(set(keys)), 'floor': floor}
 
 
